@@ -115,6 +115,8 @@ PAIRS = {
     'SlicedPacketCursor::slice_ipv4': ['h_pairs::c07_offsets_from_ip_v4'],
     'SlicedPacketCursor::slice_ipv6': ['h_pairs::c07_offsets_from_ip_v6'],
     'SlicedPacketCursor::slice_ip': ['h_pairs::c07_offsets_from_ip_v4', 'h_pairs::c07_offsets_from_ip_v6'],
+    'IpHeaders::from_ipv4_slice': ['h_pairs::p_ipv4_boundary_headers'],
+    'Ipv4Header::from_slice': ['h_pairs::p_ipv4_boundary_headers'],
     '::read_transport': ['h_pairs::c04_slim_ip_v4_udp', 'h_pairs::c04_slim_ip_v6_udp'],
     'Ipv6Extensions::from_slice_lax': ['h_pairs::p_ext_struct_walk_lax'],
     # bit-level contracts (clause label bits_*): complete loop-free harness over the whole domain
@@ -387,6 +389,7 @@ harness('h_big::c09_k_big_icmpv6', ['C09'], 'bounded (one length: echo request +
 
 # ---- IP boundary against an executable mirror of the contracts (paired harnesses, also part of the regular checks) ------------------
 harness('h_pairs::p_ipv6_boundary_strict', ['C03', 'C06', 'C07'], 'bounded (all inputs <= 64 B with version nibble 6, <= 3 extension headers)', 'Ipv6Slice::from_slice and IpSlice::from_slice == RFC 8200 reference boundary / reference fault (layer, offset, lengths, length source)', tier='quick', bound='N=64, unwind 5', timeout=900)
+harness('h_pairs::p_ipv4_boundary_headers', ['C04', 'C06', 'C07'], 'bounded (all inputs <= 40 B with version nibble 4)', 'IpHeaders::from_ipv4_slice == RFC 791 / RFC 4302 reference boundary / fault (same reference as the slice decoders), delimiting header fields from the bytes', tier='quick', bound='N=40, unwind 4', timeout=900, heavy=True)
 harness('h_pairs::p_ipv4_boundary_strict', ['C03', 'C06', 'C07'], 'bounded (all inputs <= 48 B with version nibble 4)', 'Ipv4Slice::from_slice and IpSlice::from_slice == RFC 791 / RFC 4302 reference boundary / fault', tier='quick', bound='N=48, unwind 4', timeout=600)
 
 # ---- C07 whole-packet error localisation (numeric offsets, which the Verus contracts cannot decide) ------------------------------
